@@ -9,6 +9,7 @@ import UgoVerif.Model.Eval
   and `Free = nil` in the VM (`Model/Eval.allocFn`).  Imports are outside the compile model, so
   its constants are scalars and functions only.
 -/
+set_option linter.unusedSimpArgs false
 namespace UgoVerif.Proofs.Enc
 open UgoVerif UgoVerif.Go UgoVerif.Model.Enc UgoVerif.Spec.Enc UgoVerif.Spec.EncVM UgoVerif.VM UgoVerif.Gen.EncTags
 
@@ -19,7 +20,9 @@ def cfOfCFn (f : Compile.CFn) : CF :=
     instructions := some f.insts.toList
     variadic := f.variadic
     numFree := 0
-    sourceMap := some (f.sourceMap.map fun kv => (BitVec.ofNat 64 kv.1, BitVec.ofNat 64 kv.2)) }
+    -- the compile model lists the assignments `sourceMap[ip] = pos` (`setSourceMap`): the Go map
+    -- they denote
+    sourceMap := some (mapOfList (f.sourceMap.map fun kv => (BitVec.ofNat 64 kv.1, BitVec.ofNat 64 kv.2))) }
 
 def objOfCVal : Compile.CVal → Obj
   | .int v => .int v
@@ -75,6 +78,53 @@ theorem toEnc_FixOK (mods : Mods) (fs : Option FileSet) (cbc : Compile.Bytecode)
   subst h
   obtain ⟨k, _, rfl⟩ := List.mem_map.mp hc
   exact FixOK_notModule mods _ (objOfConst_notModule k)
+
+/-! ### compiler output is well-formed: the round trip gives back exactly the same bytecode -/
+
+/-- the counts of a function fit Go's `int` (the compiler bounds NumLocals by 256) -/
+def SmallFn (f : Compile.CFn) : Prop := f.numParams < 2 ^ 63 ∧ f.numLocals < 2 ^ 63
+
+def SmallCounts (cbc : Compile.Bytecode) : Prop :=
+  SmallFn cbc.main ∧ ∀ c ∈ cbc.constants.toList, ∀ f, c = .fn f → SmallFn f
+
+theorem toInt_ofNat_small (n : Nat) (h : n < 2 ^ 63) : (BitVec.ofNat 64 n).toInt = (n : Int) := by
+  rw [BitVec.toInt_eq_toNat_cond]
+  simp only [BitVec.toNat_ofNat]
+  have : n % 2 ^ 64 = n := Nat.mod_eq_of_lt (by omega)
+  rw [this]
+  split <;> omega
+
+theorem cfOfCFn_WF (f : Compile.CFn) (h : SmallFn f) : WFCF (cfOfCFn f) := by
+  refine ⟨?_, ?_, rfl, ?_⟩
+  · simp only [cfOfCFn, toInt_ofNat_small _ h.1]; omega
+  · simp only [cfOfCFn, toInt_ofNat_small _ h.2]; omega
+  · intro sm hsm
+    simp only [cfOfCFn, Option.some.injEq] at hsm
+    subst hsm
+    exact nodup_keys_mapOfList _
+
+theorem objOfConst_WF (c : Compile.Const) (h : ∀ f, c = .fn f → SmallFn f) : WF (objOfConst c) := by
+  cases c with
+  | val v => cases v <;> simp [objOfConst, objOfCVal, WF]
+  | fn g => simp only [objOfConst, WF]; exact cfOfCFn_WF g (h g rfl)
+
+theorem consts_WF : ∀ cs : List Compile.Const, (∀ c ∈ cs, ∀ f, c = .fn f → SmallFn f) → WFL (cs.map objOfConst)
+  | [], _ => by simp [WFL]
+  | c :: rest, h => by
+    simp only [List.map_cons, WFL]
+    exact ⟨objOfConst_WF c (h c (List.mem_cons_self ..)),
+      consts_WF rest (fun c' hc' => h c' (List.mem_cons_of_mem _ hc'))⟩
+
+theorem toEnc_WF (fs : Option FileSet) (cbc : Compile.Bytecode) (hs : SmallCounts cbc) : WFBC (toEnc fs cbc) := by
+  refine ⟨?_, ?_, (by show (0 : Int) ≤ (0#64 : BitVec 64).toInt; decide)⟩
+  · intro f h
+    simp only [toEnc, Option.some.injEq] at h
+    subst h
+    exact cfOfCFn_WF _ hs.1
+  · intro cs h
+    simp only [toEnc, Option.some.injEq] at h
+    subst h
+    exact consts_WF _ hs.2
 
 /-! ### size bounds (every length fits Go's `int` as soon as the instruction streams do) -/
 
@@ -132,12 +182,6 @@ theorem encodeCF_length_le (f : CF) (n m : Nat)
   simp only [List.length_cons, List.length_append]; omega
 
 /-! ### the loader agrees with `Model/Eval.setBytecode` on compiler output -/
-
-/-- the counts of a function fit Go's `int` (the compiler bounds NumLocals by 256) -/
-def SmallFn (f : Compile.CFn) : Prop := f.numParams < 2 ^ 63 ∧ f.numLocals < 2 ^ 63
-
-def SmallCounts (cbc : Compile.Bytecode) : Prop :=
-  SmallFn cbc.main ∧ ∀ c ∈ cbc.constants.toList, ∀ f, c = .fn f → SmallFn f
 
 theorem toNat_ofNat_small (n : Nat) (h : n < 2 ^ 63) : (BitVec.ofNat 64 n).toInt.toNat = n := by
   rw [BitVec.toInt_eq_toNat_cond]
